@@ -222,18 +222,39 @@ def probe_standin(prop, unit_name, scratch, reason, always=False, by_file=False)
     ob = {"engine": "probe-bounded", "unit": unit_name, "name": "probe:%s" % fn[:-3], "fn": unit_name, "kind": "bounded",
           "bound": probes.probe_bound(fn), "status": "undecided" if found is None else ("failed" if found else "discharged"),
           "backend": "rustc test on the real code", "text": "bounded stand-in for unit %s (%s)" % (unit_name, reason)}
+    mc = re.search(r"PROBE cases=(\d+)(?: nontrivial=(\d+))?", pout or "")
+    if mc:
+        ob["cases"] = int(mc.group(1))
+        ob["nontrivial"] = int(mc.group(2)) if mc.group(2) else None
     viol = None
     if found:
-        os.makedirs(REPLAYS, exist_ok=True)
-        rp = os.path.join(REPLAYS, "%s-probe_%s.txt" % (prop, fn[:-3]))
-        with open(rp, "w") as f:
-            f.write("replay for property %s\nfailed obligation: %s (bounded stand-in; the deductive unit %s was undecided: %s)\n"
-                    "probe source: overlay/probes/%s (appended to the real source file and run with cargo test)\n\n---- failing inputs on the real code ----\n%s\n"
-                    % (prop, ob["name"], unit_name, reason, fn, pout))
-        viol = {"ob": ob, "desc": "probe found failing input", "replay": rp, "reproduced": True}
-        kf = _registry().known_finding_for(prop, ob["name"])
-        if kf is not None:
-            viol["known"] = kf
+        # a probe may group its failing inputs into classes (input family / violated clause): a known finding is
+        # keyed by one class, so that a different violation of the same property is still reported
+        classes = re.findall(r"PROBE-CLASS (\S+) count=(\d+)", pout or "")
+        known, unknown = [], []
+        for cname, cnt in classes:
+            kf = _registry().known_finding_for(prop, "%s/%s" % (ob["name"], cname))
+            (known if kf is not None else unknown).append((cname, cnt, kf))
+        if not classes:
+            kf = _registry().known_finding_for(prop, ob["name"])
+            if kf is not None:
+                known.append((None, "?", kf))
+            else:
+                unknown.append((None, "?", None))
+        viol = []
+        for cname, cnt, kf in known:
+            viol.append({"ob": dict(ob, name=ob["name"] + ("/" + cname if cname else ""), status="known-finding"), "desc": "known finding", "known": kf})
+        if unknown:
+            os.makedirs(REPLAYS, exist_ok=True)
+            rp = os.path.join(REPLAYS, "%s-probe_%s.txt" % (prop, fn[:-3]))
+            with open(rp, "w") as f:
+                f.write("replay for property %s\nfailed obligation: %s (bounded stand-in; %s)\n"
+                        "failing classes not listed in known_findings.json: %s\n"
+                        "probe source: overlay/probes/%s (appended to the real source file and run with cargo test)\n\n---- failing inputs on the real code ----\n%s\n"
+                        % (prop, ob["name"], reason, ", ".join("%s (%s inputs)" % (c or "-", n) for c, n, _ in unknown), fn, pout))
+            viol.append({"ob": dict(ob, name=ob["name"] + ("/" + unknown[0][0] if unknown[0][0] else "")), "desc": "probe found failing input", "replay": rp, "reproduced": True})
+        else:
+            ob["status"] = "known-finding"
     return ob, viol
 
 
@@ -267,7 +288,7 @@ def check(prop, tier, seed, only=None):
                         if ob["status"] == "undecided":
                             undecided.append("probe %s did not run" % w)
                     if viol:
-                        violations.append(viol)
+                        violations += viol
     except Undecided as ex:
         fatal = str(ex)
         undecided.append(fatal)
@@ -330,6 +351,18 @@ def check(prop, tier, seed, only=None):
         "explanation": P.get("explanation", ""),
         "exhaustive": False,
     }
+    pc = [o for o in bounded_obs if o.get("cases") is not None]
+    if pc:
+        cov["evaluations"] = sum(o["cases"] for o in pc)
+        cov["distinct_nontrivial"] = sum(o["nontrivial"] or 0 for o in pc)
+        cov["rule"] = ("bounded probes only (counted by the probes themselves on this run): evaluations = inputs on which a function's postcondition was evaluated; "
+                       "non-trivial = inputs that exercise the clause at stake as counted by each probe (e.g. something suppressed and something kept for nms, "
+                       "a contested track for best-fit voting, more than N qualifying tracks for top-N, a partially covered box for own areas, more than 3 expected results for distances); "
+                       "probes without such a counter contribute 0")
+        for o in cov["bounded"]:
+            m_ = [x for x in pc if x["name"] == o["name"]]
+            if m_:
+                o["cases"], o["nontrivial"] = m_[0]["cases"], m_[0]["nontrivial"]
     level = P.get("level", "proof")
     if level == "proof" and (len(proof_obs) == 0):
         level = "other"
